@@ -58,8 +58,14 @@ impl fmt::Debug for Data<'_> {
         let mut formatter = f.debug_map();
 
         for result in self.iter() {
-            let (tag, value) = result.map_err(|_| fmt::Error)?;
-            formatter.entry(&tag, &value);
+            // A `Debug` implementation must not fail unless the formatter does.
+            match result {
+                Ok((tag, value)) => formatter.entry(&tag, &value),
+                Err(e) => {
+                    formatter.entry(&"<invalid>", &e);
+                    break;
+                }
+            };
         }
 
         formatter.finish()
